@@ -90,6 +90,21 @@ def scripts(tier, seed, scale=1):
                         # the space reported must really be there: a push of that size has to be accepted
                         tail = ["q push " + _fill(int(w[2]), 0x70)] + tail
                     out.append(("ex:%d/%d/%d:%s" % (mx, off, ln, op), [new, op] + tail))
+    # boundary-directed: the block-rotation thresholds of mpt_memrev (1024-byte temporary, both shortcuts) with
+    # wrapped content whose two parts lie on either side of them; align / resize / string rotate the storage
+    r = gen.rng(id, tier, seed, "memrev")
+    sizes = [1, 7, 1023, 1024, 1025, 2047, 2049, 4095, 4096, 4097]
+    for pre in sizes:
+        for post in sizes:
+            if tier == "quick" and (pre + post) % 3 == 1 and pre > 7 and post > 7:
+                continue
+            for gap in (0, 1, 1500):
+                mx = pre + post + gap
+                fill = gen.hexs([r.randrange(1, 256) for _ in range(pre + post)])
+                new = "q new %d %d %s" % (mx, mx - pre, fill)
+                op = r.choice(["q align 0", "q align 0", "q resize %d" % (mx + 8), "q string", "q align %d" % r.randrange(mx + 1),
+                               "q prepare %d" % (gap + 1)])
+                out.append(("memrev:%d/%d/%d" % (pre, post, gap), [new, op, "q get 0 %d" % (pre + post), "q save"]))
     # random histories
     nrand = (300 if tier == "quick" else 3000) * scale
     r = gen.rng(id, tier, seed, "random")
